@@ -250,7 +250,7 @@ func execC04(x *X) {
 			}
 			got := Marshal(e2)
 			if !bytes.Equal(got, s.durable) {
-				x.Violate("codec:"+FirstDiff(s.durable, got)+"/"+s.kind, "%s: parse+serialise of stored bytes is not the identity; %s", op.K, DiffDetail(s.durable, got))
+				x.Violate("codec:"+GDiff(s.durable, got)+"/"+s.kind, "%s: parse+serialise of stored bytes is not the identity; %s", op.K, DiffDetail(s.durable, got))
 			}
 			s.env = e2
 			s.calculated = s.durCalc
@@ -263,7 +263,7 @@ func execC04(x *X) {
 				break
 			}
 			if got := Marshal(e2); !bytes.Equal(got, before) {
-				x.Violate("codec:"+FirstDiff(before, got)+"/"+s.kind, "parse+serialise is not the identity; %s", DiffDetail(before, got))
+				x.Violate("codec:"+GDiff(before, got)+"/"+s.kind, "parse+serialise is not the identity; %s", DiffDetail(before, got))
 			}
 			db := Marshal(s.env.Document)
 			obj, err := gobl.Parse(db)
@@ -277,12 +277,12 @@ func execC04(x *X) {
 				break
 			}
 			if got := Marshal(wrapped); !bytes.Equal(got, db) {
-				x.Violate("codec-doc:"+FirstDiff(db, got)+"/"+s.kind, "gobl.Parse+serialise of the document is not the identity; %s", DiffDetail(db, got))
+				x.Violate("codec-doc:"+GDiff(db, got)+"/"+s.kind, "gobl.Parse+serialise of the document is not the identity; %s", DiffDetail(db, got))
 			}
 			o2 := new(schema.Object)
 			if err := o2.UnmarshalJSON(db); err == nil {
 				if got := Marshal(o2); !bytes.Equal(got, db) {
-					x.Violate("codec-obj:"+FirstDiff(db, got)+"/"+s.kind, "schema.Object round trip is not the identity; %s", DiffDetail(db, got))
+					x.Violate("codec-obj:"+GDiff(db, got)+"/"+s.kind, "schema.Object round trip is not the identity; %s", DiffDetail(db, got))
 				}
 			}
 			re, _ := Reencode(before, op.I, false)
@@ -290,7 +290,7 @@ func execC04(x *X) {
 				// whether every equivalent encoding is accepted is C08's clause, not C04's
 				x.Probe("reencoded-not-parsed")
 			} else if got := Marshal(e3); !bytes.Equal(got, before) {
-				x.Violate("codec-reenc:"+FirstDiff(before, got)+"/"+s.kind, "parse(re-encode(b)) does not serialise to b; %s", DiffDetail(before, got))
+				x.Violate("codec-reenc:"+GDiff(before, got)+"/"+s.kind, "parse(re-encode(b)) does not serialise to b; %s", DiffDetail(before, got))
 			}
 			x.Fault("re-encode")
 		case "validate":
@@ -349,7 +349,7 @@ func execC04(x *X) {
 					first = b
 				}
 				if !bytes.Equal(first, b) {
-					x.Violate("repeat:"+FirstDiff(first, b)+"/"+s.kind, "two calculations of the same serialised envelope disagree; %s", DiffDetail(first, b))
+					x.Violate("repeat:"+GDiff(first, b)+"/"+s.kind, "two calculations of the same serialised envelope disagree; %s", DiffDetail(first, b))
 					break
 				}
 				outs[H(b)]++
@@ -358,7 +358,7 @@ func execC04(x *X) {
 				x.Violate("repeat:outcomes/"+s.kind, "%d-fold repetition produced different outcomes: %v", op.I, outs)
 			}
 			if s.calculated && first != nil && !bytes.Equal(first, before) {
-				x.Violate("fixpoint:"+FirstDiff(before, first)+"/"+s.kind, "calculating a parsed copy of a calculated envelope changed it; %s", DiffDetail(before, first))
+				x.Violate("fixpoint:"+GDiff(before, first)+"/"+s.kind, "calculating a parsed copy of a calculated envelope changed it; %s", DiffDetail(before, first))
 			}
 			x.Probe("kfold")
 		}
@@ -373,7 +373,7 @@ func execC04(x *X) {
 func c04readonly(x *X, s *c04slot, what string, before []byte) {
 	after := Marshal(s.env)
 	if !bytes.Equal(before, after) {
-		x.Violate("readonly:"+what+":"+FirstDiff(before, after)+"/"+s.kind, "%s changed the envelope; %s", what, DiffDetail(before, after))
+		x.Violate("readonly:"+what+":"+GDiff(before, after)+"/"+s.kind, "%s changed the envelope; %s", what, DiffDetail(before, after))
 	}
 }
 
@@ -394,7 +394,7 @@ func c04checkCalc(x *X, s *c04slot, op Op, before, after []byte, err error, via 
 			x.R.Nontrivial = true
 		}
 		if !bytes.Equal(before, after) {
-			x.Violate("fixpoint:"+FirstDiff(before, after)+"/"+s.kind, "calculate (%s) on a calculated envelope is not the identity (faults since last calculate: %v); %s", via, SortedKeys(s.sinceCalc), DiffDetail(before, after))
+			x.Violate("fixpoint:"+GDiff(before, after)+"/"+s.kind, "calculate (%s) on a calculated envelope is not the identity (faults since last calculate: %v); %s", via, SortedKeys(s.sinceCalc), DiffDetail(before, after))
 		}
 	}
 	s.calculated = true
